@@ -1,5 +1,5 @@
 #!/usr/bin/env python3
-"""record anti-vacuity floors (90% of the PROVED count per rule of the last run) for a property/tier from its evidence file.
+"""record anti-vacuity floors (the decided (PROVED + REFUTED, i.e. including listed known findings) count per rule of the last run; 98% of it for rules with 200 or more obligations) for a property/tier from its evidence file.
 Run by hand after the counts of a run on the unchanged tree have been confirmed; never run by a check."""
 import json, sys, os
 root = os.path.join(os.path.dirname(os.path.abspath(__file__)), '..')
@@ -7,6 +7,6 @@ fp = os.path.join(root, 'rules', 'expect.json')
 e = json.load(open(fp)) if os.path.exists(fp) else {}
 for prop in sys.argv[1:]:
     ev = json.load(open(os.path.join(root, 'evidence', prop + '.json')))
-    e.setdefault(prop, {})[ev['tier']] = {r: int(v['PROVED'] * 0.9) for r, v in ev['coverage']['per_rule'].items() if v['PROVED']}
+    e.setdefault(prop, {})[ev['tier']] = {r: ((v['PROVED'] + v['REFUTED']) if (v['PROVED'] + v['REFUTED']) < 200 else int((v['PROVED'] + v['REFUTED']) * 0.98)) for r, v in ev['coverage']['per_rule'].items() if v['PROVED'] + v['REFUTED']}
     print(prop, ev['tier'], e[prop][ev['tier']])
 json.dump(e, open(fp, 'w'), indent=1, sort_keys=True)
